@@ -82,6 +82,17 @@ def vT : Except FOStrings.TypeErr Str → String
 
 def pair (m s : String) : String := m ++ "|" ++ s
 
+def parsePos (s : String) : Option Strings.PosArg :=
+  match s.splitOn ":" with
+  | ["n", v] => (parseNum v).map .num
+  | ["u", v] => (parseNum v).map .untyped
+  | ["s", v] => (parseNum v).map .string
+  | _ => none
+
+def vX : Except Strings.SubErr Str → String
+  | .ok s => vS s
+  | .error .FORG0006 => "ERR:FORG0006"
+
 abbrev md := Strings.argDefault
 abbrev sd := FOStrings.orEmpty
 
@@ -120,6 +131,18 @@ def answerBase (line : String) : String :=
     match parseOStr sep, items.mapM parseNats with
     | some sep, some l => pair (vT (Strings.fnStringJoin l sep)) (vT (FOStrings.fnStringJoin l sep))
     | _, _ => "bad-arg"
+  | ["substring2x", s, a] =>        -- position arguments with a kind prefix: n / u / s
+    match parseOStr s, parsePos a with
+    | some s, some a =>
+      pair (vX (Strings.fnSubstring2 s a)) (vS (FOStrings.substring2 (sd s) a.value))
+        ++ "|" ++ (if a.isString then "1" else "0")
+    | _, _ => "bad-arg"
+  | ["substring3x", s, a, b] =>
+    match parseOStr s, parsePos a, parsePos b with
+    | some s, some a, some b =>
+      pair (vX (Strings.fnSubstring3 s a b)) (vS (FOStrings.substring3 (sd s) a.value b.value))
+        ++ "|" ++ (if a.isString || b.isString then "1" else "0")
+    | _, _, _ => "bad-arg"
   | ["substring2", s, a] =>
     match parseOStr s, parseNum a with
     | some s, some a => pair (vS (Strings.substring2 (md s) a)) (vS (FOStrings.substring2 (sd s) a))
